@@ -10,7 +10,9 @@ _spec.loader.exec_module(_g)
 
 RULE = ('correspondence: styled bounding boxes of thick polylines and stroked triangles (join_poly_bbox, join_tri_bbox) incl. a display-scale stratum '
         '(+-1024, widths up to 128) and the input of the repaired finding; search p_thick_bbox: thick polylines (2..6 vertices, widths 2..30, weighted towards widths 2..4 where a join can collapse to one '
-        'point) and stroked triangles (all alignments): every pixel drawn lies inside the styled bounding box')
+        'point) and stroked triangles (all alignments): every pixel drawn lies inside the styled bounding box; p_thick_grid: ALL ordered vertex triples of a 9x9 grid as '
+        'stroked triangle (width 2 Center/Outside, width 3 all alignments) and as 3-vertex polyline (width 2): every pixels() item lies inside the styled bounding box; p_thick_skel (directed): every vertex triple of a 13x13 grid whose join has coincident corners '
+        '(hook line_join) extended by 48 predecessors / successors to 4- and 5-vertex polylines (widths 2, 3) and as triangle x 3 alignments: drawn inside the styled box')
 PARTIAL = ['C02_join_polyline_drawn_in_bbox_partial (full statement: every pixel of a thick polyline lies in the styled bounding box; proved when no '
            'segment is a skeleton and corners lie within +-2^29; the skeleton case is covered by the search p_thick_bbox)',
            'C02_join_triangle_stroke_in_bbox_partial (stroke lines, Center / Outside, width >= 2, no skeleton segment), C02_join_triangle_fill_like_in_bbox '
@@ -37,6 +39,18 @@ def search(tier, rng):
     n = 3000 if tier == 'quick' else 60000
     # the recorded defect first (known finding K02_thick_skeleton_bbox)
     yield 'p_thick_bbox poly 2 -7 -7 -9 -10 -3 -21'
+    # exhaustive small-grid stratum at widths 2..3 (collapsed join corners / skeleton segments; see c02_join.rs thick_grid):
+    # all ordered vertex triples of a 9x9 grid, one case line per first vertex (sharded over the cores)
+    for i in range(81):
+        yield J('p_thick_grid tri', 2, 1 + i % 2, 9, 9, i)
+        yield J('p_thick_grid poly', 2, 9, 9, i)
+        if tier != 'quick' or i % 3 == 0:
+            yield J('p_thick_grid tri', 3, i % 3, 9, 9, i)
+        # directed: every collapsed join of the grid extended to 4- and 5-vertex polylines (c02_join.rs thick_skel)
+    for i in range(169):
+        yield J('p_thick_skel', 2, 13, 13, i)
+        if tier != 'quick' or i % 3 == 0:
+            yield J('p_thick_skel', 3, 13, 13, i)
     for _ in range(n):
         w = rng.choice([2, 2, 2, 3, 3, 4, _g.width(rng)])
         yield J('p_thick_bbox poly', w, *_g.flat(_g.poly_pts(rng)))
